@@ -35,15 +35,15 @@ theorem read_conserves (final : RErr) (r : Reader) (k : Nat) :
 refill with flags and fuel recomputed from the (longer) window. A value that was recognised with bytes to spare, or that is
 not a number, is recognised identically — same kind, same extent — when ANY further bytes `x` are appended to the window. -/
 theorem window_ok_stable (b x r : Bytes) (k : Kind) (hb : skipSpaces b = b)
-    (h : parseValue (internalParseFlags b) (fuelFor b) b = .ok k r) (hd : r ≠ [] ∨ k.isNum = false) :
-    parseValue (internalParseFlags (b ++ x)) (fuelFor (b ++ x)) (b ++ x) = .ok k (r ++ x) :=
+    (h : parseValue (internalParseFlags b) 0 (fuelFor b) b = .ok k r) (hd : r ≠ [] ∨ k.isNum = false) :
+    parseValue (internalParseFlags (b ++ x)) 0 (fuelFor (b ++ x)) (b ++ x) = .ok k (r ++ x) :=
   Lemmas.StreamStable.window_ok_stable b x r k hb h hd
 
 /-- … and a definitive syntax error (non-empty remainder: the only errors `readValue` reports without reading more)
 stays the same error whatever arrives later -/
 theorem window_err_stable (b x : Bytes) (hb : skipSpaces b = b)
-    (h : parseValue (internalParseFlags b) (fuelFor b) b = .err false) :
-    parseValue (internalParseFlags (b ++ x)) (fuelFor (b ++ x)) (b ++ x) = .err false :=
+    (h : parseValue (internalParseFlags b) 0 (fuelFor b) b = .err false) :
+    parseValue (internalParseFlags (b ++ x)) 0 (fuelFor (b ++ x)) (b ++ x) = .err false :=
   Lemmas.StreamStable.window_err_stable b x hb h
 
 /-- the one case excluded above is real: a number that ends exactly at the end of the window may continue ("1" then
@@ -52,8 +52,8 @@ theorem window_err_stable (b x : Bytes) (hb : skipSpaces b = b)
 example : parseNumber [0x31] = .ok .uint [] ∧ parseNumber [0x31, 0x32] = .ok .uint [] := by decide
 
 /-- the whole-window flags are sound shortcuts: parsing does not depend on them -/
-theorem flags_irrelevant (fl : PFlags) (f : Nat) (b : Bytes) (hq : Lemmas.JsonString.QSound fl b) :
-    parseValue fl f b = parseValue {} f b :=
-  Lemmas.StreamStable.parseValue_flags fl f b hq
+theorem flags_irrelevant (fl : PFlags) (depth f : Nat) (b : Bytes) (hq : Lemmas.JsonString.QSound fl b) :
+    parseValue fl depth f b = parseValue {} depth f b :=
+  Lemmas.StreamStable.parseValue_flags fl depth f b hq
 
 end Enc.Props.C11
